@@ -21,7 +21,7 @@ CHECKS = {
    "float values outside the eight families are not enumerated; AVX2/FMA CPU",
    "bounded-exhaustive input enumeration (all lengths) against reference definitions", "DESIGN.md §4 C20"),
  "C01": (True, "seqx", "model_checking",
-   "Explicit-state breadth-first search over histories of insert/update/delete batches (18-symbol alphabet, depth 5 without indexes, depth 4 with the full seven-index schema, warm and reopened-after-every-batch instances, two start states) executed on the real shard; after every batch the returned error/ids, reported count, read of every id, select-all and the raw point-store/counter buckets are compared with a plain-map reference model. Complete within the alphabet and depth.",
+   "Explicit-state breadth-first search over histories of insert/update/delete batches (25-symbol alphabet, depth 5 without indexes, depth 4 with the full seven-index schema, warm and reopened-after-every-batch instances, two start states) executed on the real shard; after every batch the returned error/ids, reported count, read of every id, select-all and the raw point-store/counter buckets are compared with a plain-map reference model. Complete within the alphabet and depth.",
    "documents outside the alphabet; the order in which freed node ids are reused (Go map iteration) is not enumerated; states reached through a failed multi-point batch on an indexed schema are checked but not expanded (known finding F4 makes their futures schedule-dependent)",
    "explicit-state BFS over operation histories of the real code vs reference model", "DESIGN.md §4 C01"),
  "C02": (True, "seqx", "model_checking",
@@ -29,16 +29,16 @@ CHECKS = {
    "values outside the boundary alphabets; only queries that pass Validate(); NaN not stored",
    "explicit-state BFS over write histories + exhaustive query-space enumeration vs reference evaluation", "DESIGN.md §4 C02"),
  "C04": (True, "seqx", "model_checking",
-   "Breadth-first search to depth 3 (thorough 4) over write histories on a flat index for 7 (thorough 13) metric/quantiser combinations x 4 cache states (warm, reopened cold before every query, disabled, 1-byte limit); after every batch 4 queries x limits x weights x pre-filters must return exactly the k nearest admissible points under a float64 definition of the index distance (learned thresholds read back from the bucket), ties at the cut either way.",
-   "product quantiser not covered; vectors from small per-metric pools; float32 tolerance",
+   "Breadth-first search to depth 3 (thorough 4) over write histories on a flat index for 10 (thorough 16) metric/quantiser combinations (none, binary fixed/learned, product 2x2) x 4 cache states (warm, reopened cold before every query, disabled, 1-byte limit); after every batch 4 queries x limits x weights x pre-filters must return exactly the k nearest admissible points under a float64 definition of the index distance (learned thresholds, product-quantiser centroids and centroid ids read back from the bucket and checked for consistency with the written vectors), ties at the cut either way.",
+   "product quantiser trained at 3 points (HTTP layer minimum is 1000; same code path); vectors from small per-metric pools; float32 tolerance",
    "explicit-state BFS over write histories x configurations vs brute-force k-NN reference", "DESIGN.md §4 C04"),
  "C05": (True, "seqx", "model_checking",
    "Breadth-first search to depth 3 (thorough 5, de-duplicated on the full bucket contents) over histories that insert, rewrite, blank out, remove and delete text fields (top-level and nested), from the empty and from a 6-document corpus, on warm, reopened and in-memory instances; after every batch ~500 text queries are compared with a brute-force tf-idf reference recomputed from the model (match set, scores, order, limit cut, hybrid score).",
    "bleve's standard analyser is trusted; texts and queries from the stated alphabets",
    "explicit-state BFS over write histories vs brute-force tf-idf reference", "DESIGN.md §4 C05"),
  "C03": (True, "seqx", "model_checking",
-   "Every write history up to depth 3 (thorough 4) over an 11-symbol alphabet (no merging: the warm graph cache is state outside the buckets), from the empty shard and from 30 lattice points, for 5 (thorough 10) metric/quantiser combinations on warm and reopened instances; after every batch ~430 graph searches (queries x limits x search sizes x weights x 6 pre-filters) are checked for the safety clauses of the property against the model, and for exact k-NN in the two stated regimes; the persisted graph is checked too.",
-   "random entry vector: oracles are shape independent; product quantiser not covered; vectors from small pools",
+   "Every write history up to depth 3 (thorough 4) over an 11-symbol alphabet (no merging: the warm graph cache is state outside the buckets), from the empty shard and from 30 lattice points, for 6 (thorough 12) metric/quantiser combinations (incl. product quantiser) on warm and reopened instances; after every batch ~430 graph searches (queries x limits x search sizes x weights x 6 pre-filters) are checked for the safety clauses of the property against the model, and for exact k-NN in the two stated regimes; the persisted graph is checked too.",
+   "random entry vector: oracles are shape independent; product quantiser trained at 3 points (HTTP layer minimum is 1000); vectors from small pools",
    "exhaustive enumeration of write histories of the real code vs reference (safety + brute-force k-NN in the exact regimes)", "DESIGN.md §4 C03"),
  "C10": (True, "seqx", "model_checking",
    "Every write history up to depth 4 (thorough 5) over 12 graph-hurting batches, and up to depth 2 (thorough 3) from 40 mutually equidistant points where the degree bound binds, for alpha {1.1,1.5} x degreeBound {32,64}, warm and reopened; after every batch the bucket dump is checked for node/vector/edge well-formedness, degree bound, max-id, point-store bijection and free-list disjointness, plus a full-window search.",
@@ -49,7 +49,7 @@ CHECKS = {
    "one data set; sort keys must be selected; ambiguous references (ties at a leaf limit) are skipped",
    "bounded-exhaustive enumeration of query trees / select / sort / paging inputs vs reference evaluation", "DESIGN.md §4 C06"),
  "C08": (True, "seqx", "model_checking",
-   "Every write history up to depth 3 (thorough 4) over a 10-symbol alphabet on a nine-index schema, with and without a learned binary quantiser, executed in lock-step on five instances (bbolt with unlimited / 1-byte / disabled shared cache, bbolt reopened with a fresh cache manager after every batch, memstore); after every batch each instance must answer the complete battery exactly like the reference model (so warm, evicted, disabled, cold and in-memory answers coincide) and the reopened file's buckets must be byte-identical before close, after reopen and after querying.",
+   "Every write history up to depth 3 (thorough 4) over a 13-symbol alphabet (three batches meet an injected storage error after the index work) on a nine-index schema, with and without a learned binary quantiser, executed in lock-step on five instances (bbolt with unlimited / 1-byte / disabled shared cache, bbolt reopened with a fresh cache manager after every batch, memstore); after every batch each instance must answer the complete battery exactly like the reference model (so warm, evicted, disabled, cold and in-memory answers coincide) and the reopened file's buckets must be byte-identical before close, after reopen and after querying.",
    "approximate graph answers outside the exact regimes are not compared across instances; fsync/commit of bbolt trusted; rejected batches are not applied to memstore (as the property scopes it)",
    "exhaustive enumeration of write histories in lock-step over five configurations of the real code (differential + reference model)", "DESIGN.md §4 C08"),
  "C11": (True, "schedx", "model_checking",
